@@ -108,6 +108,7 @@ func checkC06(c c06Case, o *Obs) error {
 	o.Label("mode:" + c.Mode)
 	o.Label("measure:" + c.Measure)
 	o.LabelIf(c.Table, "table")
+	o.LabelIf(len(c.Targets) > 12, "targets>12")
 	lines := splitLines(out.String())
 	if len(lines) == 0 {
 		return fmt.Errorf("no output")
@@ -376,6 +377,11 @@ func genC06(t *rapid.T) c06Case {
 		c.Queries = append(c.Queries, FaRec{ID: fmt.Sprintf("q%d", i), Seq: string(q)})
 	}
 	nT := rapid.IntRange(1, 12).Draw(t, "nt")
+	if rapid.IntRange(0, 2).Draw(t, "manyTargets") == 0 {
+		// large catchments: sorting algorithms behave differently beyond a dozen elements (insertion sort
+		// below, unstable partitioning above), and ties on distance AND completeness must still follow file order
+		nT = rapid.IntRange(13, 48).Draw(t, "ntMany")
+	}
 	var pool [][]byte // earlier targets to copy / pad
 	for i := 0; i < nT; i++ {
 		var s []byte
@@ -390,7 +396,7 @@ func genC06(t *rapid.T) c06Case {
 					s[p] = alpha17[4+rapid.IntRange(0, 12).Draw(t, "heavySym")]
 				}
 			}
-		case kind <= 3 && len(pool) > 0: // exact copy of an earlier target (tie on everything but file order)
+		case (kind <= 3 || (nT > 12 && kind <= 6)) && len(pool) > 0: // exact copy of an earlier target (tie on everything but file order)
 			s = append([]byte(nil), pool[rapid.IntRange(0, len(pool)-1).Draw(t, "copyOf")]...)
 		case kind <= 5 && len(pool) > 0: // same distance, lower completeness: ambiguity code containing the original base
 			s = append([]byte(nil), pool[rapid.IntRange(0, len(pool)-1).Draw(t, "padOf")]...)
